@@ -343,6 +343,10 @@ def execute(E, st, ins):
             a, b = E.getg(st, o[0]), E.get(st, ins, o[1], w)
         else:
             a, b = E.get(st, ins, o[1], w), bv(o[2].imm, w)
+        if getattr(E, 'mul_abstract', None) and w == 64 and len(o) == 2:
+            E.putg(st, o[0], E.mul_abstract(a, b, 64))      # product as an uninterpreted function of its factors (props/asm_poly.py)
+            st.flags = None
+            return done()
         E.putg(st, o[0], a * b)
         st.flags = None
         return done()
@@ -352,6 +356,8 @@ def execute(E, st, ins):
         b = E.get(st, ins, o[0], w)
         ext = ZeroExt if m == 'mul' else SignExt
         p = simp(ext(w, a) * ext(w, b))
+        if getattr(E, 'mul_abstract', None) and w == 64 and m == 'mul':
+            p = E.mul_abstract(a, b, 128)
         if w == 8:
             raise Unsupported('8-bit mul')
         lo, hi = Extract(w - 1, 0, p), Extract(2 * w - 1, w, p)
